@@ -79,7 +79,7 @@ def raws_to_wbs(raws: List[TaskRaw]) -> WBS:
         )
 
         for k in raw.__dict__.keys():
-            if k not in dir(t):
+            if k not in dir(t) and k not in ('parent_id', 'predecessor_ids'):
                 t.__setattr__(k, raw.__getattribute__(k))
 
         tasks_by_id[t.id] = t
